@@ -12,6 +12,8 @@ CONSTANTS
  AllowWith = TRUE
  AllowVars = FALSE
  MaxUses = 1
+ AllowFlat = FALSE
+ MoveAfterRename = FALSE
  OldWith = TRUE
  RestoreOwn = FALSE
 INVARIANTS CaptureFree
